@@ -544,6 +544,13 @@ fn gen_doc_case(c: &mut Ctx, r: &mut Rng, tables: &[(&str, [Option<u16>; 256])])
                         let mut arr = vec![];
                         for _ in 0..(1 + r.usize(4)) {
                             if r.chance(2, 3) { let n = r.usize(6); let s: String = (0..n).map(|_| *r.pick(&rep)).collect(); arr.push(Object::String(encode_ref(&t, &s), StringFormat::Literal)); chunk.push_str(&s); }
+                            else if r.chance(1, 3) {
+                                // a real kerning number: one with a fraction stays a real after decoding and is ignored by the
+                                // loop; an integral one is written without a point and comes back as an integer (C01/C14 normal form)
+                                let v = *r.pick(&[-300.5f32, -150.0, -100.0, -100.5, -99.5, 12.25, -1000.0, 0.5, -101.0]);
+                                arr.push(Object::Real(v));
+                                if v.fract() == 0.0 && v < -100.0 { chunk.push(' '); }
+                            }
                             else { let k = if r.chance(1, 4) { *r.pick(&[-101i64, -100, -99]) } else { r.range(-300, 100) }; arr.push(Object::Integer(k)); if k < -100 { chunk.push(' '); } }
                         }
                         ops.push(Operation::new("TJ", vec![Object::Array(arr)]));
@@ -602,7 +609,12 @@ fn gen_doc_case(c: &mut Ctx, r: &mut Rng, tables: &[(&str, [Option<u16>; 256])])
         let mut req = format!("c16.extract {}", spec.fonts.len());
         for (n, d) in &spec.fonts { req.push_str(&format!(" {} {}", hex_tok(n), show_obj(&Object::Dictionary(d.clone())))); }
         req.push_str(&format!(" {}", spec.ops.len()));
-        for op in &spec.ops { req.push_str(&format!(" {} {}", hex_tok(op.operator.as_bytes()), show_obj(&Object::Array(op.operands.clone())))); }
+        // the loop sees DECODED operations: an integral-valued real has become an integer by then (C14 normal form)
+        fn normal(o: &Object) -> Object { match o {
+            Object::Real(v) if v.fract() == 0.0 && v.abs() < 9.0e18 => Object::Integer(*v as i64),
+            Object::Array(a) => Object::Array(a.iter().map(normal).collect()),
+            x => x.clone() } }
+        for op in &spec.ops { req.push_str(&format!(" {} {}", hex_tok(op.operator.as_bytes()), show_obj(&Object::Array(op.operands.iter().map(normal).collect())))); }
         c.nontrivial(&req);
         let res = guard(|| doc.extract_text(&[pn]));
         c.corr(req.clone(), show_res(&res));
